@@ -1,5 +1,6 @@
 """Shared front matter for the register-table properties C01-C05."""
 from .. import cast, sym, front
+from ..sym import C
 
 UNIT = 'src/registers/core.c'
 T = ('v', 't')
@@ -227,3 +228,137 @@ def for_headers(R, rule, fn, expected):
                           % (ef, line, startv, op, ef, step, es, ef))
     ck.verdict(bad is None, rule, fn + ':scans', R.where(fn),
                'all %d table scans of %s have the confirmed range' % (len(expected), fn) if bad is None else bad)
+
+
+def touch_helpers(R, rule, which):
+    """The touched mark of a register is the REG_EF_TOUCHED bit of its entry's flags: `register_touch` sets exactly that bit
+    of entry[reg].flags, `register_untouch` clears exactly that bit, `register_was_touched` tests it; nothing else is stored.
+    The walkers (C02.e, C05.c) are decided in terms of calls of these helpers, so the helpers have to do what their names say.
+    `which` selects the helpers a property relies on."""
+    from .. import sym as _sym
+    ck, u = R.ck, R.u
+    eng = _sym.Engine(u, sizeof=R.so, inline=set())
+    T = u.enums.get('REG_EF_TOUCHED')
+    if T is None:
+        return ck.broken(rule, 'touch:flag', 'include/ufw/register-table.h', 'REG_EF_TOUCHED not found')
+    FL = ('f', ('+', ('f', ('v', 't'), 'entry'), ('v', 'reg')), 'flags')
+    ok_bit = T > 0 and T & (T - 1) == 0
+    ck.verdict(ok_bit, rule, 'touch:flag', 'include/ufw/register-table.h',
+               'REG_EF_TOUCHED = %#x is one bit' % T if ok_bit else
+               'REG_EF_TOUCHED = %#x is not a single non-zero bit: setting it marks nothing (or more than the mark)' % T)
+    for fn in which:
+        ps = R.paths(fn, rule, eng)
+        if ps is None:
+            continue
+        bad = None
+        if len(ps) != 1:
+            bad = '%d paths, expected straight-line code' % len(ps)
+        for p in ps[:1]:
+            st = p.stores()
+            if p.calls():
+                bad = 'calls %s' % p.calls()[0].name
+            elif fn == 'register_was_touched':
+                want = [('cmp', '==', ('&b', FL, C(T)), C(T)), ('cmp', '!=', ('&b', FL, C(T)), C(0))]
+                r = p.ret
+                if st:
+                    bad = 'stores into the table'
+                elif r not in want and _sym.truth(r) not in want:
+                    bad = 'returns %s, expected the REG_EF_TOUCHED bit of entry[reg].flags' % _sym.fmt(r)
+            else:
+                if len(st) != 1 or st[0].name != FL:
+                    bad = 'stores %s, expected exactly one store into entry[reg].flags' % [_sym.fmt(e.name) if isinstance(e.name, tuple) else e.name for e in st]
+                else:
+                    v = st[0].args[0]
+                    while v[0] == 'cast':
+                        v = v[2]
+                    if fn == 'register_touch':
+                        good = v in (('|b', FL, C(T)), ('|b', C(T), FL))
+                        exp = 'flags | %#x' % T
+                    else:
+                        good = v[0] == '&b' and FL in v[1:] and any(_sym.is_c(x) and (x[1] & 0xffff) == (~T & 0xffff) for x in v[1:])
+                        exp = 'flags & ~%#x' % T
+                    if not good:
+                        bad = 'stores %s into entry[reg].flags, expected %s' % (_sym.fmt(st[0].args[0]), exp)
+        ck.verdict(bad is None, rule, 'touch:' + fn, R.where(fn),
+                   {'register_touch': 'sets exactly the REG_EF_TOUCHED bit of entry[reg].flags',
+                    'register_untouch': 'clears exactly the REG_EF_TOUCHED bit of entry[reg].flags',
+                    'register_was_touched': 'tests the REG_EF_TOUCHED bit of entry[reg].flags'}[fn] if bad is None else bad)
+
+
+import re as _re
+
+
+def _norm_term(t):
+    """report text of a term without the engine's path-specific numbering"""
+    x = sym.fmt(t)
+    x = _re.sub(r'\?loop@\d+:', '', x)
+    x = _re.sub(r'\?clobbered:', '', x)
+    x = _re.sub(r'~\d+', '', x)
+    x = _re.sub(r'#\d+', '', x)
+    return x
+
+
+ADDRESS_FIELDS = {'base', 'size', 'address'}
+ADDRESS_VARS = {'addr', 'address', 'off', 'offset', 'start', 'previous', 'current', 'last', 'end'}
+
+
+def _is_address_term(t):
+    """does the sum involve a register address / area extent (and not only handles and counters)?"""
+    for x in sym.subterms(t):
+        if x[0] == 'f' and x[2] in ADDRESS_FIELDS:
+            return True
+        if x[0] == 'v' and _re.sub(r'~\d+$', '', x[1].split(':')[-1]) in ADDRESS_VARS:
+            return True
+        if x[0] == 'h' and _re.sub(r'^loop@\d+:', '', x[1]) in ADDRESS_VARS:
+            return True
+    return False
+
+
+def wrap_free(R, rule, fn, inline=(), roots=('+',), known=None):
+    """Address arithmetic of `fn` (helpers in `inline` inlined) cannot wrap around 2^32: every outermost unsigned 32-bit
+    sum that a guard compares, a store keeps or a call receives has its mathematical value inside the type, proved from the
+    guards of its path.  A guard that itself contains a sum not proved so gives no fact (its meaning is not the mathematical
+    one).  Narrowing conversions are value preserving only where that is proved (Engine.strict_facts).
+    -> reports one verdict per (function, sum); unsigned arithmetic is modular, so inner sums of a chain may wrap."""
+    from .. import sym as _sym
+    ck, u = R.ck, R.u
+    eng = _sym.Engine(u, sizeof=R.so, inline=set(inline))
+    ps = R.paths(fn, rule, eng)
+    if ps is None:
+        return
+    where = R.where(fn)
+    found = {}
+    nterms = 0
+    for p in ps:
+        conds = list(p.cond_terms())
+        terms = list(conds)
+        for e in p.effects:
+            terms += [a for a in e.args if isinstance(a, tuple)]
+        if p.ret is not None:
+            terms.append(p.ret)
+        flagged = set()
+        for _ in range(4):
+            usable = [c for c in conds if not any(_sym.contains(c, f) for f in flagged)]
+            facts = eng.strict_facts(usable)
+            w = eng.narrow_wraps(terms, facts, maximal=True)
+            new = {t for t, qt, why in w if t[0] in roots or any(x[0] == '+' and x in eng.optype for x in _sym.subterms(t))}
+            # narrowing conversions of sums
+            for c in terms:
+                for x in _sym.subterms(c):
+                    if x[0] == 'cast' and x[1] in eng.INT_MAX_OF and not _sym.is_c(x[2]) and any(y[0] == '+' for y in _sym.subterms(x[2])):
+                        mx = eng.INT_MAX_OF[x[1]]
+                        if not eng.entails(facts, _sym.linearize(x[2]) - mx):
+                            new.add(x)
+            new = {t for t in new if _is_address_term(t)}
+            if new <= flagged:
+                break
+            flagged |= new
+        nterms += 1
+        for t in flagged:
+            found.setdefault(_norm_term(t), p)
+    if not found:
+        ck.holds(rule, fn + ':wrap', where, 'no address sum of %s can wrap around 2^32 (%d paths)' % (fn, len(ps)))
+    for txt, p in sorted(found.items()):
+        ck.violation(rule, '%s:wrap:%s' % (fn, txt), where,
+                     'the sum %s is computed in 32 bits and is not proved to stay below 2^32 on the path {%s}: at the top of the address '
+                     'space it wraps, and the comparison that uses it decides the opposite' % (txt, '; '.join(sym.fmt(c) for c in p.cond_terms())[:260]))
